@@ -59,7 +59,7 @@ CORNERS = [
     "a{,}", "a{,3}", "a{ 1, 2 }", "a{²}", "a{٣}", "[^\U0001F600]", "[^\\U0001F600]",
     "[^\\U00010000]", "[]", "[]a]", "[^]", "[^]a]", "}", "\\}", "\\{", "[--a]", "[a-b-c]", "[-\\-]",
     "[a\\-]", "[+--]", "[\\uFFFF-\\U00010001]", "\n(", "a\\", "\\x4", "\\u12", "\\U0001F60", "[a",
-    "(?:a)", "[.]", "[\\.]", "a{2,}?", "a|", "^a$*", "a**", "a??", "a???", "\\U00110000", "\\U00000041",
+    "(?:a)", "[a-", "[a-b", "[.]", "[\\.]", "a{2,}?", "a|", "^a$*", "a**", "a??", "a???", "\\U00110000", "\\U00000041",
     "a{99999999999}", "[z-a]", "[\\x41-\\x5a]", "\\#", "\\|", "[|]", "a{1}", "a{0}", "a{0,0}", "(|)",
     "[\\^a]", "[a^]", "[^^]", "[\\]]", "[[]", "[[:alpha:]]", "[a&&b]", "\\d", "[\\d]", "\\1", "\\b",
 ]
@@ -379,7 +379,7 @@ def shard(ctx: runner.Ctx) -> None:
 def _shard(ctx: runner.Ctx) -> None:
     from hypothesis import strategies as st
 
-    n = ctx.n(12_000, 600_000)
+    n = ctx.n(10_000, 600_000)
     if ctx.quick and ctx.shard == 0:
         n //= 3  # shard 0 also runs the corner cases and the atheris smoke stage
     pos_total = [0, 0]
